@@ -305,3 +305,70 @@ Proof.
   replace (blen h + N.of_nat (length v)) with (blen (h ++ v)) by (rewrite blen_app; unfold blen; lia).
   rewrite (app_assoc h v [q4]). apply slice_tail.
 Qed.
+
+(* ---------- the same at an arbitrary position, followed by arbitrary text ---------- *)
+Lemma two_group_mt_at a x b s p e g :
+  no_gid 1 x = true -> no_gid 1 b = true ->
+  match_at (Seq (Group 1 a) (Seq x (Group 2 b))) s p = Some (e, g) ->
+  exists s1 p1 s2 p2 s3, mt a s p s1 p1 /\ mt x s1 p1 s2 p2 /\ mt b s2 p2 s3 e /\
+    gget g 1 = Some (p, p1) /\ gget g 2 = Some (p2, e).
+Proof.
+  intros Hx Hb H. apply no_gid_notin in Hx. apply no_gid_notin in Hb.
+  unfold match_at in H. cbn [m] in H.
+  destruct (m_sound_g _ _ _ _ _ _ _ H) as (s1 & p1 & gs1 & M1 & K1 & F1). clear H. cbn beta in K1.
+  destruct (m_sound_g _ _ _ _ _ _ _ K1) as (s2 & p2 & gs2 & M2 & K2 & F2). clear K1. cbn beta in K2.
+  destruct (m_sound_g _ _ _ _ _ _ _ K2) as (s3 & p3 & gs3 & M3 & K3 & F3). clear K2. cbn beta in K3.
+  inversion K3; subst; clear K3.
+  exists s1, p1, s2, p2, s3. repeat split; try assumption.
+  - cbn [gget Nat.eqb]. rewrite (gget_skip gs3 _ 1 _ _ _ F3 Hb). rewrite (gget_skip gs2 _ 1 _ _ _ F2 Hx).
+    cbn [gget Nat.eqb]. reflexivity.
+Qed.
+
+Theorem quote_delimited_at Q a nq qc pre h v q4 post nA pA h0 q3 :
+  qcount Q a = Some nA -> last_q Q a = true -> cset_disj nq Q = true -> cset_incl qc Q = true ->
+  mt a (h ++ v ++ q4 :: post) (blen pre) (v ++ q4 :: post) pA ->
+  countq Q h = nA -> h = h0 ++ [q3] -> cmem q3 Q = true ->
+  all_in nq v = true -> cmem q4 qc = true ->
+  exists g, match_at (Seq (Group 1 a) (Seq (Rep nq 0 None) (Group 2 (Chr qc)))) (h ++ v ++ q4 :: post) (blen pre)
+            = Some (blen (pre ++ h ++ v ++ [q4]), g) /\
+            gget g 1 = Some (blen pre, blen (pre ++ h)) /\ gget g 2 = Some (blen (pre ++ h ++ v), blen (pre ++ h ++ v ++ [q4])).
+Proof.
+  intros Hqa Hla Hd Hi Ma Ch Eh Hq3 Hv Hq4.
+  set (r := Seq (Group 1 a) (Seq (Rep nq 0 None) (Group 2 (Chr qc)))).
+  set (s := h ++ v ++ q4 :: post).
+  assert (Hq4Q : cmem q4 Q = true) by (apply (cset_incl_sound _ _ _ Hi); exact Hq4).
+  assert (Hq4n : cmem q4 nq = false).
+  { destruct (cmem q4 nq) eqn:E; [|reflexivity]. rewrite (cset_disj_sound _ _ _ Hd E) in Hq4Q. discriminate. }
+  assert (Hex : match_at r s (blen pre) <> None).
+  { unfold match_at. apply (m_complete _ r s (blen pre) post (pA + blen v + 1)); [|intros; discriminate].
+    unfold r. econstructor; [constructor; exact Ma|]. econstructor.
+    - apply mt_rep_run; [exact Hv|lia|reflexivity].
+    - constructor. constructor. exact Hq4. }
+  destruct (match_at r s (blen pre)) as [[e g]|] eqn:Em; [clear Hex|congruence].
+  destruct (two_group_mt_at a (Rep nq 0 None) (Chr qc) s (blen pre) e g eq_refl eq_refl Em) as (s1 & p1 & s2 & p2 & s3 & M1 & M2 & M3 & G1 & G2).
+  destruct (qcount_sound Q a _ _ _ _ _ Hqa M1) as (c1 & Es & Ep1 & Cc1).
+  destruct (last_q_sound Q a _ _ _ _ Hla M1) as (c0 & q & Es' & Hq).
+  assert (Hc1 : c1 = c0 ++ [q]) by (apply (app_inv_tail s1); rewrite <- Es, <- Es'; reflexivity).
+  unfold s in Es.
+  destruct (prefix_unique Q h (v ++ q4 :: post) c1 s1 h0 q3 c0 q Es (eq_trans Ch (eq_sym Cc1)) Eh Hq3 Hc1 Hq) as [Ec Er].
+  clear Es'. rewrite <- Ec in *. rewrite <- Er in *. clear Ec Er.
+  destruct (mt_rep_inv _ _ _ _ _ _ _ M2) as (j & Hj & -> & ->).
+  destruct (mt_chr_inv _ _ _ _ _ M3) as (c & Ec & Hc & ->). rename s3 into t.
+  assert (Hrun : run_len nq (v ++ q4 :: post) None = length v).
+  { apply run_len_exact; [exact Hv|reflexivity|]. left. cbn [hd_notin]. rewrite Hq4n. reflexivity. }
+  rewrite Hrun in Hj.
+  assert (j = length v).
+  { destruct (Nat.eq_dec j (length v)) as [E|N]; [exact E|]. exfalso.
+    assert (Hlt : (j < length v)%nat) by lia.
+    rewrite skipn_app in Ec. replace (j - length v)%nat with 0%nat in Ec by lia. cbn [skipn] in Ec.
+    destruct (skipn j v) as [|c' t'] eqn:Esk.
+    - apply (f_equal (@length _)) in Esk. rewrite skipn_length in Esk. cbn in Esk. lia.
+    - cbn [app] in Ec. inversion Ec; subst c'.
+      assert (Hin : In c v). { rewrite <- (firstn_skipn j v), Esk. apply in_or_app. right. left. reflexivity. }
+      unfold all_in in Hv. rewrite forallb_forall in Hv. specialize (Hv c Hin).
+      pose proof (cset_incl_sound _ _ _ Hi Hc) as HcQ. rewrite (cset_disj_sound _ _ _ Hd Hv) in HcQ. discriminate. }
+  subst j. rewrite skipn_app_exact in Ec. inversion Ec; subst c t. clear Ec M1 M2 M3. subst p1.
+  exists g. subst r s. rewrite ?blen_app in *. unfold blen in *. cbn [length] in *.
+  split; [f_equal; f_equal; lia|].
+  split; [etransitivity; [exact G1|f_equal; f_equal; lia]|etransitivity; [exact G2|f_equal; f_equal; lia]].
+Qed.
